@@ -32,6 +32,26 @@ const REFRESH_KINDS: &[Kind] = &[
 
 fn gen(rng: &mut Rng, idx: u64, tier: Tier) -> Case {
     let s = 1_000_000i64;
+    if idx % 4_000 == 5 {
+        // a very full table going silent at once: 600-1500 aircraft heard once in one big read, then only one
+        // talker; 12 accepted frames after the limit has passed all of them must be gone
+        let d = *rng.pick(&[1i64, 5, 5, 60]);
+        let n = rng.range(600, 1500) as usize;
+        let base = (rng.bits(24) as u32 | 0x400000) & 0xFFF000;
+        let mut many: Vec<gen::Ac> = (0..n).map(|i| gen::aircraft(rng, base + 1 + i as u32)).collect();
+        let kind = *rng.pick(&[Kind::Df11, Kind::Df4, Kind::AirPos]);
+        let mut ops = vec![Op::Data { dt_us: 0, bytes: crate::script::Bytes(gen::blob_of(rng, &mut many, n, kind)), tag: "many-rows".into() }];
+        let mut talker = vec![gen::aircraft(rng, base + 0xFFF)];
+        let first_gap = *rng.pick(&[d * s, d * s + 1, (d + 1) * s, 3 * d * s]);
+        for i in 0..rng.range(14, 40) {
+            let k = *rng.pick(&[Kind::Df11, Kind::AirPos, Kind::Df4, Kind::Vel12]);
+            ops.push(Op::Data { dt_us: if i == 0 { first_gap } else { rng.range(0, 400_000) }, bytes: crate::script::Bytes(gen::blob_of(rng, &mut talker, 1, k)), tag: "talker".into() });
+        }
+        let mut args = vec![format!("--delete-after={}", d)];
+        if rng.chance(0.5) { args.push("--use-update-method".into()); }
+        let script = Script::file(args, ops);
+        return Case { property: "C12".into(), mode: "many-rows".into(), script, args_b: None, log_level_b: None, meta: serde_json::Value::Null };
+    }
     // now and then "never delete": a limit beyond anything a time stamp plus the limit can represent
     let d_opt = if rng.chance(0.04) { *rng.pick(&[9_000_000_000_000i64, 1_000_000_000_000_000, i64::MAX]) } else { *rng.pick(&[1i64, 5, 5, 60, 60, 600, 86_400]) };
     // the schedule below is laid out for a limit of at most a day
@@ -100,6 +120,9 @@ fn gen(rng: &mut Rng, idx: u64, tier: Tier) -> Case {
     let mut prev = 0i64;
     for (t, a, kind) in events {
         if rng.chance(0.04) { continue; } // channel drop
+        // aircraft climb, descend and change codes while they are silent
+        if rng.chance(0.3) { acs[a].alt_n = rng.range(41, 1800) as u64; }
+        if rng.chance(0.1) { acs[a].sq = [rng.below(8), rng.below(8), rng.below(8), rng.below(8)]; }
         let f = gen::frame(rng, &mut acs[a], kind, false);
         let line = gen::line_of(rng, &f, false);
         lines.push((t - prev, line.clone(), format!("{:?}", kind).to_lowercase()));
